@@ -1196,3 +1196,19 @@ Corollary arridx_in_segment base es bs idxs c n :
 Proof.
   intros Hb Hes Hbase He Hn. destruct (elem_index_in_array _ _ _ _ _ Hb Hes He). lia.
 Qed.
+
+(* a dynamic array lives in its own segment of header_size + heap_array_cells
+   cells (allocarr / Array.__init__): every well-formed path into the array
+   stays inside that segment *)
+Theorem heap_array_paths_in_segment env bs e p o k es :
+  denotes env (TArray bs e) p o k -> wf_env env -> wf_ty (TArray bs e) ->
+  type_size env e = Some es -> 1 <= es -> bs <> [] ->
+  0 <= o < header_size bs + heap_array_cells es bs.
+Proof.
+  intros D He Hw Hes H1 Hne.
+  assert (Hs : type_size env (TArray bs e) = Some (Layout.prod_list (dims bs) * es + header_size bs)).
+  { unfold type_size in *. simpl. now rewrite Hes. }
+  pose proof (paths_in_object _ _ _ _ _ D He Hw _ Hs) as Hr.
+  destruct Hw as [Hb _].
+  pose proof (heap_array_cells_ge es bs Hb H1 Hne) as Hge. unfold array_cells in Hge. lia.
+Qed.
